@@ -377,8 +377,10 @@ pub fn judge(h: &History, recs: &[StepRec]) -> Result<(u32, u32), Failure> {
                                 let a = &ans[ai].1;
                                 ai += 1;
                                 // margin = SNR of the downlink, 6-bit signed
+                                // (an SNR outside the field's range -32..=31 is not judged: no property says
+                                // how it is to be reported)
                                 let want = (h.board.snr as u8) & 0x3f;
-                                if a[1] & 0x3f != want {
+                                if (-32..=31).contains(&h.board.snr) && a[1] & 0x3f != want {
                                     return Err(Failure::new("devstatus-margin", case(), format!("DevStatusAns margin {:#04x}, downlink SNR was {}", a[1], h.board.snr)));
                                 }
                             }
